@@ -119,7 +119,7 @@ Print Assumptions retained_files_exist_partial.
 
 (* the invariant is preserved by every single step *)
 Theorem retained_files_exist_step : forall w o, Safe w -> step_ok w o -> Safe (step w o).
-Proof. exact safe_step. Qed.
+Proof. intros w o. apply safe_step. Qed.
 Print Assumptions retained_files_exist_step.
 
 (* the class predicate of finding D11, and that it is a failure of the monitor *)
